@@ -323,9 +323,7 @@ Proof.
     destruct (q_mode q); destruct (src_next e (c_sh c)) as [xv|] eqn:Esrc.
     all: try (apply Hacc; [reflexivity|left; eauto]).
     all: try (match goal with |- context [if ?b then _ else _] => destruct b end; apply Hacc; [reflexivity|left; eauto]).
-    all: try (destruct got; apply Hacc; [reflexivity|left; eauto]).
     all: try (destruct (N.of_nat (length (xv :: got)) =? q_n q); (apply Hacc; [reflexivity|left; eauto])).
-    destruct got; (apply Hacc; [reflexivity|left; eauto]).
   - assert (Ct : in_crit (t_pc (c_pool c t)) = true) by (rewrite Hpc; reflexivity).
     rewrite (istep_setf e c t q b got Hpc). destruct (q_mode q).
     + destruct (finish_form c t (with_f (c_sh c) true) (c_pool c t) (LAtom t SF AStore 1 0 (o_setf q)) q (Ok PREnd)) as (ts' & evs & -> & Ct' & Tt').
